@@ -283,9 +283,15 @@ func runC20Seq(w *mon.W, seqNo int) {
 			names := genWalkC20(w.Rng)
 			norm, lead := refNormalize(names)
 			spy.take()
+			saved := append([]string{}, names...)
 			qids, ent, err := e.ent.Walk(ctx, names...)
 			calls := spy.take()
-			trace = append(trace, fmt.Sprintf("e%d.Walk(%q)", e.id, names))
+			trace = append(trace, fmt.Sprintf("e%d.Walk(%q)", e.id, saved))
+			if !eqStrs(names, saved) {
+				// a caller may resolve the same relative path against several entries
+				bad("caller-names-modified", "Walk(%q) modified the caller's name list to %q (a second walk with the same slice would go elsewhere)", saved, names)
+				return
+			}
 			if lead < 0 {
 				w.Count("walk:rejected-locally", 1)
 				if err == nil {
